@@ -18,6 +18,11 @@ pub struct ShardModel {
     pub seg_events: Vec<Ev>,
     /// L0 directory labels present
     pub l0: BTreeSet<u32>,
+    /// events written into each L0 segment
+    pub l0_content: BTreeMap<u32, Vec<Ev>>,
+    /// events that may be readable from a compaction output and from a surviving input at once
+    /// (the input holds several event types and a round merged it for some of them only)
+    pub partial_dup: BTreeSet<i64>,
 }
 
 #[derive(Debug, Clone)]
@@ -105,9 +110,32 @@ impl Model {
     pub fn compacted(&mut self, live: &[Vec<String>]) {
         for (i, s) in self.shards.iter_mut().enumerate() {
             if let Some(l) = live.get(i) {
+                let before = s.l0.clone();
                 s.l0 = l.iter().filter_map(|x| x.parse::<u32>().ok()).filter(|x| *x < 10_000).collect();
+                let something_merged = before != s.l0 || l.iter().any(|x| x.parse::<u32>().map_or(false, |n| n >= 10_000));
+                // listed defect (C05): an input that holds several event types and survives the round
+                // may have been merged for one of them; its rows of that type are then read twice
+                let mut dup = BTreeSet::new();
+                if something_merged {
+                    for label in s.l0.iter().filter(|x| before.contains(x)) {
+                        if let Some(evs) = s.l0_content.get(label) {
+                            let types: BTreeSet<&str> = evs.iter().map(|e| e.typ.as_str()).collect();
+                            if types.len() >= 2 {
+                                dup.extend(evs.iter().map(|e| e.k));
+                            }
+                        }
+                    }
+                }
+                // candidates of earlier rounds stay while their segment is still there
+                let still: BTreeSet<i64> = s.l0.iter().filter_map(|x| s.l0_content.get(x)).flatten().map(|e| e.k).collect();
+                s.partial_dup = s.partial_dup.iter().copied().filter(|k| still.contains(k)).chain(dup).collect();
+                s.l0_content.retain(|k, _| s.l0.contains(k));
             }
         }
+    }
+
+    pub fn partial_dup(&self) -> BTreeSet<i64> {
+        self.shards.iter().flat_map(|s| s.partial_dup.iter().copied()).collect()
     }
 
     /// visibility in the running process
@@ -168,6 +196,7 @@ impl ShardModel {
         }
         self.seg_events.extend(events.iter().cloned());
         self.l0.insert(seg);
+        self.l0_content.insert(seg, events.clone());
         FlushWin { shard, seg, events, empty: false }
     }
 
